@@ -329,8 +329,11 @@ class Interp:
                 if f is any and t:
                     return True
             return f is all
-        if f is sorted and not kw:
-            raise OutsideSubset('sorted() of symbolic values')
+        if f is sorted:
+            try:
+                return f(*args, **kw)
+            except SymbolicTruthError:
+                raise OutsideSubset('sorted() of symbolic values')
         if f is map:
             return [self.call(args[0], list(xs), {}) for xs in zip(*args[1:])]
         if f is filter:
@@ -349,6 +352,11 @@ class Interp:
         if inspect.isclass(f):
             if f in (tuple, list):
                 return f(*args)
+            if f in (set, frozenset, dict):
+                try:       # fine as long as no symbolic value has to be hashed / compared
+                    return f(*args, **kw)
+                except SymbolicTruthError:
+                    raise OutsideSubset(f'constructor of {f.__name__} needs equality of symbolic values')
             if issubclass(f, BaseException):
                 return f(*[('<sym>' if anysym(a) else a) for a in args])
             if issubclass(f, tuple) and f.__new__ is tuple.__new__ and f.__init__ is object.__init__:
